@@ -58,7 +58,8 @@ SolveClauses(e, exp) ==
                 \/ LabCostOrd(inp, I, sols[i]) # e.lcosts[i])
            THEN {"ClauseCostRecount"} ELSE {})
      \cup (IF \E i \in DOMAIN sols : e.costs[i] >= Inf THEN {"ClauseFiniteCost"} ELSE {})
-     \cup (IF \E i \in DOMAIN sols : e.costs[i] # exp.min THEN {"ClauseMin"} ELSE {})
+     \cup (IF \E i \in DOMAIN sols : e.costs[i] # exp.min \/ (ValidOrd(inp, I, sols[i]) /\ CostOrd(inp, I, sols[i]) # exp.min)
+           THEN {"ClauseMin"} ELSE {})
      \cup (IF \E i, j \in DOMAIN sols : e.costs[i] # e.costs[j] THEN {"ClauseSameCost"} ELSE {})
      \cup (IF (Len(sols) = 0) # (exp.opt = {}) THEN {"ClauseEmptyIffNoSolution"} ELSE {})
      \cup (IF e.policy = "ALL" /\ solset # exp.opt THEN {"ClauseAllEqualsOpt"} ELSE {})
